@@ -3219,15 +3219,18 @@ def role5_version_builder(P, R, L, rule="ROLE-5"):
 PAIRED_FIELDS = [
     ("versioning::version::SeekChargeMetadata", "seek_file", "seek_file_level"),
     ("versioning::version::SeekCompactionMetadata", "file_to_compact", "level_of_file_to_compact"),
+    ("tables::table::TwoLevelIterator", "maybe_data_block_iter", "data_block_handle"),
 ]
 
 
-def pair12_file_level_pairs(P, R, L, rule="PAIR-12"):
+def pair12_file_level_pairs(P, R, L, rule="PAIR-12", only=None):
     """A table file is identified to the compaction picker by (file, level): remove_file(level, number) and
     add_file(level + 1, ..) of a seek-triggered trivial move use the stored level. The two fields of each pair are
     therefore always written together: every store of one is control-equivalent to a store of the other."""
     n = 0
     for adt, fa, fb in PAIRED_FIELDS:
+        if (only is not None and adt not in only) or (only is None and adt == "tables::table::TwoLevelIterator"):
+            continue
         for p, b in sorted(P.bodies.items()):
             sa = [s for s in field_stores(b, fa, adt=adt)]
             sb = [s for s in field_stores(b, fb, adt=adt)]
@@ -3257,7 +3260,7 @@ def pair12_file_level_pairs(P, R, L, rule="PAIR-12"):
                 if not any(equivalent(a[0], s[0]) for s in sb):
                     det.append("the store of %s at line %s has no accompanying store of %s" % (fa, a[2].get("line"), fb))
             R.check(rule, "%s|%s+%s" % (p, fa, fb), not det, where(b), "%s and %s are always written together" % (fa, fb), "; ".join(det) or "%d + %d stores" % (len(sa), len(sb)))
-    R.floor(rule, "bodies that write a (file, level) pair", n, 3)
+    R.floor(rule, "bodies that write a paired field", n, 3)
 
 
 # ------------------------------------------------------------------------------------------- SRC-1 the client iterator merges every source
